@@ -27,6 +27,16 @@ CLAIMS = {
              'SUBSCRIBE/UNSUBSCRIBE/PUBREL; PUBREL consults the set and the unknown-id edge never reaches the control service.',
         note='Not decided: id histories as such (reuse after acknowledgement follows from the pairing, not from executing histories).',
         ref='DESIGN.md section 5 C11'),
+    'C16': dict(
+        technique='MIR panic-site enumeration over the peer-driven call graph + reviewed justification table + guard prover (static analysis)',
+        text='Decides the panic half: every panic-capable MIR site (panic!/unreachable!/assert!, unwrap/expect, Index, overflow asserts) reachable from the peer-driven entry '
+             'points is enumerated and must be auto-proven (dominating comparison guard, constant operand), discharged by a named structural rule that is re-checked on every '
+             'run (C06 type/conversion pairing, PayloadChunk origin in the decoder state machine, Stop(Some) typestate, next_id invariant, router index registration), or '
+             'match a reviewed table entry (API precondition / assumed invariant with a reason); anything else is reported. No RefCell guard alive across an await in any of '
+             'the 138 coroutines; the four PayloadChunk arms agree (absent sender => UnexpectedPayload).',
+        note='Not decided: "never stops making progress" (liveness). Table entries classed ASSUMED/API-PRECONDITION are trusted with their stated reason and echoed in the evidence. '
+             'A new, correct but unprovable panic-capable site on a peer-driven path is reported until reviewed (conservative side).',
+        ref='DESIGN.md section 5 C16'),
 }
 
 NA_REASONS = {}
